@@ -299,7 +299,7 @@ class Unilateral(
                 break
 
         if assign:
-            self.graph.set_state(new_state)
+            self.graph.set_state(*new_state)
 
         return trans_prob
 
